@@ -639,6 +639,8 @@ package node
 //@   ensures writesAfterFail == old(writesAfterFail)
 //@   ensures nodeWrites <= old(nodeWrites) + 1
 //@   ensures err == nil ==> nodeWrites == old(nodeWrites) + 1
+//@   callsite Next: recv == sel.parent.Node && arg0.Selection == sel.parent && arg0.Delete && !arg0.New
+//@   callsite Child: recv == sel.parent.Node && arg0.Selection == sel.parent && arg0.Delete && !arg0.New
 
 //@ func (sel *Selection) ClearField(m meta.Leafable) error
 //@   mode int
